@@ -333,6 +333,25 @@ def gen_zeta0(rng):
     return case
 
 
+def gen_large_pool(rng):
+    """pools of 17, 24, 40, 100 emitters, num_active 1..5, unequal batch sizes, histories long enough for every
+    emitter to have been selected (so that finite, different UCB1 scores compete at the reselections)"""
+    n = rng.choice([17, 17, 24, 24, 40, 100])
+    k = rng.randint(1, 5)
+    case = {
+        "archive": "some", "pool": n, "num_active": k, "zeta": rng.choice([0.0, 0.05, 0.05, 1.0]),
+        "reselect": rng.choice(["all", "all", "terminated"]), "mode": "batch", "result": False,
+        "emitters": [{"counter": False, "start": 0} for _ in range(n)],
+        "extra": False, "dtype": "f64", "noise": False,
+    }
+    ops = []
+    for _ in range(-(-n // k) + rng.randint(3, 8)):
+        ops.append({"op": "ask", "ns": [rng.choice([1, 2, 3, 4]) for _ in range(n)]})
+        ops.append({"op": "tell", "seed": rng.randrange(1 << 30), "restart": [], "hot": False})
+    case["ops"] = ops
+    return case
+
+
 def mk_op(name, rng, n, sizes, p_restart, kind, t, cold):
     if name == "ask":
         return {"op": "ask", "ns": [rng.choice(sizes) for _ in range(n)]}
@@ -797,6 +816,7 @@ def _run(ctx, quick):
     ctx.explore("protocol", lambda r: gen_with("some", r, style="protocol"), run_case, ctx.n(60, 2000),
                 nontrivial=nontrivial, time_budget=tb(3, 30))
     ctx.explore("several-schedulers", gen_multi, run_multi, ctx.n(40, 2000), time_budget=tb(3, 40))
+    ctx.explore("large-pool", gen_large_pool, run_case, ctx.n(12, 600), nontrivial=nontrivial, time_budget=tb(6, 60))
     ctx.explore("zeta-zero", gen_zeta0, run_case, ctx.n(80, 4000), nontrivial=nontrivial, time_budget=tb(4, 50))
 
 
